@@ -709,7 +709,7 @@ func (fx *FnCtx) handleLoop(li *loopInfo, incoming []*Edge, rets *[]retInfo) []*
 				}
 				tc := fx.tc
 				x := hv[idx].L[0]
-				fx.assume(Implies(reachE, And(tc.IdxLe(tc.IdxSub(tc.IdxNum(0), tc.IdxNum(1)), x), tc.IdxLt(x, tc.IdxAdd(lv.L[0], tc.IdxNum(0))), tc.IdxLe(lv.L[0], tc.IdxNum(1<<62)))))
+				fx.assume(Implies(reachE, And(tc.IdxLe(tc.IdxSub(tc.IdxNum(0), tc.IdxNum(1)), x), tc.IdxLt(x, tc.IdxAdd(lv.L[0], tc.IdxNum(0))), tc.IdxLe(lv.L[0], tc.IdxNum(maxSliceLen)))))
 			}
 		}
 	}
@@ -866,7 +866,7 @@ func (fx *FnCtx) validRefs(v Value, st *State, pc *Term) {
 // sliceShape: 0 <= len <= cap, sizes bounded, nil slices have zero capacity.
 func (fx *FnCtx) sliceShape(v Value, t types.Type, off int, pc *Term) {
 	tc := fx.tc
-	big62 := tc.IdxNum(1 << 62)
+	big62 := tc.IdxNum(maxSliceLen)
 	switch u := t.Underlying().(type) {
 	case *types.Slice:
 		id, o, ln, cp := v.L[off], v.L[off+1], v.L[off+2], v.L[off+3]
